@@ -11,8 +11,8 @@ P_REF = 101325.
 _cache = {}
 
 
-def par_record(ref, cs, cl, cg, Tm20, Tb20, Sfus20, Svap20, S0_20):
-    return dict(ref=ref, cs=cs, cl=cl, cg=cg, Tm20=Tm20, Tb20=Tb20, Sfus20=Sfus20, Svap20=Svap20,
+def par_record(ref, cs, cl, cg, Tm20, Tb20, Sfus20, Svap20, S0_20, lock='none'):
+    return dict(ref=ref, lock=lock, cs=cs, cl=cl, cg=cg, Tm20=Tm20, Tb20=Tb20, Sfus20=Sfus20, Svap20=Svap20,
                 Hfus400=Sfus20 * Tm20, Hvap400=Svap20 * Tb20, S0_20=S0_20)
 
 
@@ -29,6 +29,8 @@ def make_chemical(p, ID):
                                       f_int_over_T=lambda T1, T2, c=c: 2. * c * (T2 - T1), Tmin=1., Tmax=5000.)
     ch.Hvap.add_method(f=lambda T, Hvap=Hvap: Hvap, Tmin=1., Tmax=5000.)
     ch.reset_free_energies()
+    if p.get('lock', 'none') != 'none':
+        ch.at_state(p['lock'])       # phase-locked: Chemical.at_state re-runs _init_energies through its single-phase branch
     _cache[key] = ch
     return ch
 
@@ -86,10 +88,12 @@ class World:
         if op == 'eval':
             P = P_REF * 2 ** a['k']
             ch = self.c1
-            H = ch.H(ph, T, P)
-            S = ch.S(ph, T, P)
+            if self.par.get('lock', 'none') != 'none':
+                H, S, Cn = ch.H(T, P), ch.S(T, P), ch.Cn(T)      # a locked chemical takes no phase argument
+            else:
+                H, S, Cn = ch.H(ph, T, P), ch.S(ph, T, P), ch.Cn(ph, T)
             Sg = S + a['k'] * R_gas() * math.log(2.)
-            return dict(H400=fx(H, 400), S20=fx(S, 20), Sg20=fx(Sg, 20), Cn20=fx(ch.Cn(ph, T), 20))
+            return dict(H400=fx(H, 400), S20=fx(S, 20), Sg20=fx(Sg, 20), Cn20=fx(Cn, 20))
         if op == 'mix':
             th = self.thermo()
             n1, n2 = float(a['n1']), float(a['n2'])
